@@ -54,3 +54,9 @@ Definition TEB_tie_holds : Prop :=
 
 Lemma TEB_tie : TEB_tie_holds.
 Proof. split; [exact src_tcfg_good|]. split; [exact teb_skeletons_ok|exact teb_context_facts_ok]. Qed.
+
+(* the refinement stated for the variant the source selects (no reference to tcfg_good in the statement) *)
+From Quill Require TEB.TEBProofs.
+Lemma teb_refines_fifo_src (A : Type) (dflt : A) (c0 : N) (ops : list (top A)) :
+  teb_run A dflt src_tcfg (teb_init A dflt c0) ops = fifo_run A (fifo_init A c0) ops.
+Proof. rewrite src_tcfg_good. apply TEB.TEBProofs.teb_refines_fifo. Qed.
